@@ -121,7 +121,7 @@ Section Step.
 
   Lemma good_step a : okn (S n) a -> good a.
   Proof.
-    intros Ha. destruct a as [ | b | z | s | l | es | k v | | | ].
+    intros Ha. unfold good. destruct a as [ | b | z | s | l | es | k v | | | ].
     - split; reflexivity.
     - split; reflexivity.
     - split; [exact (proj2 Ha)|reflexivity].
@@ -152,7 +152,7 @@ Section Step.
     Nat.eqb (length (map emb la)) (length (map emb lb)) && KP.veq_list (map emb la) (map emb lb) = veq_list la lb.
   Proof.
     induction la as [|x la IH]; intros [|y lb] Ha Hb; cbn [map length Nat.eqb KP.veq_list veq_list andb]; try reflexivity.
-    rewrite <- (IH lb) by (intros z Hz; (apply Ha || apply Hb); now right).
+    rewrite <- (IH lb) by (intros z Hz; first [apply Ha; now right | apply Hb; now right]).
     rewrite (A x y (Ha x (or_introl eq_refl)) (Hb y (or_introl eq_refl))).
     destruct (Nat.eqb (length (map emb la)) (length (map emb lb))); destruct (veq x y); reflexivity.
   Qed.
